@@ -44,7 +44,7 @@ def check(prop, root, base):
 def main():
     d = os.path.abspath(sys.argv[1])
     meta = json.load(open(os.path.join(d, "meta.json")))
-    prop = meta.get("property") or meta.get("breaks")
+    prop = meta.get("property") or meta.get("breaks_property") or meta.get("breaks")
     checks = [prop]
     for a in sys.argv[2:]:
         if a.startswith("--checks"):
